@@ -192,6 +192,19 @@ func writeTree(root string, w *World) error {
 			return err
 		}
 	}
+	for link, target := range w.Symlinks {
+		lp := filepath.Join(root, filepath.FromSlash(link))
+		if err := os.MkdirAll(filepath.Dir(lp), 0o755); err != nil {
+			return err
+		}
+		rel, err := filepath.Rel(filepath.Dir(lp), filepath.Join(root, filepath.FromSlash(target)))
+		if err != nil {
+			return err
+		}
+		if err := os.Symlink(rel, lp); err != nil {
+			return err
+		}
+	}
 	return nil
 }
 
@@ -224,6 +237,9 @@ func (r *Runner) Exec(h *History) ([]*Obs, error) {
 	for p, c := range h.World.Files {
 		inputs[p] = c
 	}
+	for link, target := range h.World.Symlinks {
+		inputs[link] = h.World.Files[target]
+	}
 	if _, ok := inputs["go.mod"]; !ok {
 		inputs["go.mod"] = "module " + h.World.Module + "\ngo 1.18\n"
 	}
@@ -240,11 +256,23 @@ func (r *Runner) Exec(h *History) ([]*Obs, error) {
 			}
 			if op.Input {
 				inputs[op.Path] = op.Content
+				for link, target := range h.World.Symlinks {
+					if _, live := inputs[link]; live && target == op.Path {
+						inputs[link] = op.Content
+					}
+				}
 			}
 		case "remove":
 			_ = os.Remove(filepath.Join(root, filepath.FromSlash(op.Path)))
 			if op.Input {
 				delete(inputs, op.Path)
+				// a link to a removed source goes with it (no dangling declaring file)
+				for link, target := range h.World.Symlinks {
+					if target == op.Path {
+						_ = os.Remove(filepath.Join(root, filepath.FromSlash(link)))
+						delete(inputs, link)
+					}
+				}
 			}
 		case "truncate":
 			fp := filepath.Join(root, filepath.FromSlash(op.Path))
